@@ -227,3 +227,71 @@ theorem fork_switch_equiv {P S S₁ T : TxHS} (d u : List Blk) (hi : RInv P)
   exact ⟨T', hT', heq.symm⟩
 
 end GV.Chain
+
+namespace GV.Chain
+open TxHS
+
+/-- number of output leaves a list of blocks appends -/
+def outsLen (bs : List Blk) : Nat := (bs.map (·.outs.length)).sum
+
+theorem applyBlocks_leaves_length (bs : List Blk) : ∀ {S T : TxHS}, RInv S →
+    (∀ b ∈ bs, cutThroughViolation b = false) → applyBlocks S bs = .ok T →
+    T.leaves.length = S.leaves.length + outsLen bs := by
+  induction bs with
+  | nil =>
+    intro S T _ _ h
+    simp only [applyBlocks] at h
+    injection h with h
+    subst h
+    simp [outsLen]
+  | cons b bs ih =>
+    intro S T hi hct h
+    simp only [applyBlocks] at h
+    cases h1 : applyBlockImpl S b with
+    | error e => simp only [h1] at h; cases h
+    | ok S1 =>
+      simp only [h1] at h
+      obtain ⟨sp, A⟩ := applyBlockImpl_ok hi (hct b (List.mem_cons_self ..)) h1
+      have := ih A.rinv (fun b' hb' => hct b' (List.mem_cons_of_mem _ hb')) h
+      rw [this, A.leaves]
+      simp [outsLen]
+      omega
+
+theorem splitCommon_prefix (pre d u : List Blk) (n : Nat) :
+    splitCommon (pre ++ d) (pre ++ u) n = splitCommon d u (n + outsLen pre) := by
+  induction pre generalizing n with
+  | nil => simp [outsLen]
+  | cons a pre ih =>
+    simp only [List.cons_append, splitCommon, beq_self_eq_true, if_true]
+    rw [ih]
+    have : n + a.outs.length + outsLen pre = n + outsLen (a :: pre) := by
+      simp only [outsLen, List.map_cons, List.sum_cons]; omega
+    rw [this]
+
+theorem splitCommon_diverge (d u : List Blk) (n : Nat)
+    (hdiff : ∀ x y, d.head? = some x → u.head? = some y → x.id ≠ y.id) :
+    splitCommon d u n = (n, d, u) := by
+  cases d with
+  | nil => cases u <;> rfl
+  | cons x d =>
+    cases u with
+    | nil => rfl
+    | cons y u =>
+      have : (x.id == y.id) = false := by simpa using hdiff x y rfl rfl
+      simp [splitCommon, this]
+
+/-- `switchTo` on two root-first paths that share the prefix `pre` and then diverge is the fork
+switch at the tip of `pre` -/
+theorem switchTo_eq {P : TxHS} (S : TxHS) (pre d u : List Blk)
+    (hct : ∀ b ∈ pre, cutThroughViolation b = false) (hP : applyBlocks {} pre = .ok P)
+    (hdiff : ∀ x y, d.head? = some x → u.head? = some y → x.id ≠ y.id) :
+    switchTo S (pre ++ d) (pre ++ u) =
+      rewindAndApplyFork S (withPrevSizes P.leaves.length d).reverse u := by
+  have hlen := applyBlocks_leaves_length pre RInv.empty hct hP
+  unfold switchTo
+  rw [splitCommon_prefix, splitCommon_diverge d u _ hdiff]
+  simp only [Nat.zero_add]
+  rw [hlen]
+  simp
+
+end GV.Chain
